@@ -1074,6 +1074,30 @@ def _mk_oracle_cases(ctx, deep):
         out.append({'kind': 'fetch', 'cls': cls, 'ver': ver, 'items': [ditem_json(i) for i in items],
                     'crc': rng.getrandbits(32), 'extra': list(rng.choice([b'', b'\x10\x10'])), 'cachekind': ck, 'evs': evs,
                     'probe': rng.choice(['none', 'start', 'all', 'all']) if n <= 20 else rng.choice(['none', 'start'])})
+    # stale / duplicated element replies aimed at index distances that alias in one byte: while ITEM p is pending,
+    # the reply to ITEM p-d is delivered again, d in {256, 512} (and 255, 257, 1 as controls); V2 tables of 257..600
+    # entries, both classes.  Request k of a correct fetch is sends[k]: INFO is 0, ITEM i is 1+i.
+    for cls in ('log', 'param'):
+        for n in ([257, rng.choice([300, 400, 513]), 600] if not ctx.thorough else [257, 258, 300, 511, 512, 513, 600]):
+            items = gen_items(rng, cls, n, True)
+            for rep in range(2 if not ctx.thorough else 4):
+                inject = {}
+                for d in ([256] if n <= 512 else [256, 512]) + [rng.choice([255, 257, 1])]:
+                    if d >= n:
+                        continue
+                    for _ in range(rng.randint(1, 2)):
+                        p = rng.randrange(d, n) if rep else (n - 1 if d == 256 else rng.randrange(d, n))
+                        inject.setdefault(p, []).append(p - d)
+                evs = [['D', 0]]
+                for p in range(n):
+                    for k in inject.get(p, []):
+                        evs.append(['D', 1 + k])
+                        if rng.random() < 0.3:
+                            evs.append(['D', 1 + k])
+                    evs.append(['D', 1 + p])
+                out.append({'kind': 'fetch', 'cls': cls, 'ver': rng.choice([4, 7]), 'items': [ditem_json(i) for i in items],
+                            'crc': rng.getrandbits(32), 'extra': [], 'cachekind': None, 'evs': evs, 'probe': 'none',
+                            'aimed': {str(p): v for p, v in sorted(inject.items())}})
     # two fetches into the same Toc object (download then cache hit, cache hit then download, ...)
     fetches = [c for c in out if c['kind'] == 'fetch' and len(c['items']) <= 20 and c['cachekind'] != 'other_class']
     for _ in range(ctx.scale(30, 300)):
